@@ -1,25 +1,30 @@
 //! C19 — rewritten files are never served from a stale cache (spec/CacheCoherence.tla).
 //!
-//! `cache-replay <cases.ndjson> <out.ndjson> <workdir> [threads]`
-//!   Every input line is one history emitted by TLC (write / query / rewrite / external sidecar
-//!   build on 1..2 paths) plus the concrete table contents chosen by the driver.  The history is
-//!   executed on REAL files inside THIS process (the footer cache, the schema cache and
+//! `cache-replay <cases.ndjson> <out.ndjson> <workdir> [threads] [keep]`
+//!   Every input line is one history emitted by TLC (write / query / query without cache entries /
+//!   external sidecar build on 1..2 paths) plus the concrete table contents chosen by the driver.  The
+//!   history is executed on REAL files inside THIS process (the footer cache, the schema cache and
 //!   `sidecar_dict_cols` are process-global; `QE_IPC_CACHE` is read once per process, so the driver
 //!   starts one `cache-replay` process per mode).  Every history gets its own directory, so the
 //!   path-keyed caches of different histories never meet.
 //!
-//!     write  p v len mt   the file image of content version v in length class `len` (all images of
+//!     write  p v len sec ns  the file image of content version v in length class `len` (all images of
 //!                         one class have the SAME byte length: padding lives in a footer key/value
 //!                         entry) replaces path p — by rename of a temp file or in place — and its
-//!                         mtime is set to exactly (sec, nsec) with utimensat
+//!                         mtime is set to exactly (BASE_SEC+sec, ns) with utimensat; the stat tuple
+//!                         is read back and asserted
 //!     query  p            a new ExecutionContext (or the history's long-lived one), register_parquet,
 //!                         then four statements that reach the Parquet file through the morsel
 //!                         aggregate, the streaming scan, the eager filtered scan and the
 //!                         dictionary-group morsel path; rows are recorded verbatim
-//!     build  p            ANOTHER process (`qev cache-build`, QE_IPC_CACHE=1) runs the public
-//!                         `ipc_cache::ensure_sidecar(p)` — a second node sharing the data directory
-//!
-//! `cache-build <parquet>`  the external builder (exit 0 = sidecar present and fresh afterwards).
+//!     xquery p            the same statements where no path-keyed cache entry can exist: through a
+//!                         FRESH ALIAS of the directory (a new symlink; the sidecar directory is the
+//!                         same physical one) in this process, or — cases with `xreal` — in a really
+//!                         fresh process of the same mode (`qev cache-query`)
+//!     build  p            ANOTHER process with QE_IPC_CACHE=1 runs the public
+//!                         `ipc_cache::ensure_sidecar(p)` — a second node sharing the data directory:
+//!                         one long-lived `qev cache-helper` child, always handed a fresh alias (so it
+//!                         carries nothing over), or — `xreal` — a new `qev cache-build` process
 //!
 //! The judge is the driver (checks/c19.py): an answer must be the answer of the CURRENT content.
 use crate::util::*;
@@ -33,6 +38,16 @@ use std::collections::HashMap;
 use std::path::{Path, PathBuf};
 use std::sync::atomic::{AtomicUsize, Ordering};
 use std::sync::{Arc, Mutex};
+
+/// The harness binary for child processes: the path this process was started with (a rebuild by
+/// somebody else replaces the file; /proc/self/exe would then name a deleted inode).
+pub fn exe_path() -> PathBuf {
+    let a0 = PathBuf::from(std::env::args().next().unwrap_or_default());
+    if a0.is_absolute() && a0.exists() {
+        return a0;
+    }
+    std::env::current_exe().unwrap()
+}
 
 pub const NULLV: i64 = -1073741824;
 /// Base of the model clock: model second k is BASE_SEC + k (a fixed instant in the past, never "now").
@@ -417,7 +432,7 @@ pub fn replay(a: &[String]) -> i32 {
     let run = work.join(format!("run-{}", std::process::id()));
     let _ = std::fs::remove_dir_all(&run);
     std::fs::create_dir_all(&run).unwrap();
-    let exe = std::env::current_exe().unwrap();
+    let exe = crate::cache::exe_path();
     let helper = Arc::new(Mutex::new(Helper::spawn(&exe)));
     let rt = Arc::new(tokio::runtime::Builder::new_multi_thread().worker_threads(2).enable_all().build().unwrap());
     let cases = Arc::new(cases);
